@@ -246,7 +246,9 @@ class ExactSolver(object, metaclass=_AddParametersToDocstring):
 
     def __call__(self, r, t):
 
-        return self._run(numpy.asarray(r), t)
+        # positions as floating-point numbers: several solvers allocate their
+        # output like the input, so integer positions truncated the fields
+        return self._run(numpy.asarray(r, dtype=float), t)
 
 
 class ExactSolution(numpy.recarray):
